@@ -193,6 +193,14 @@ class Registry(object):
                 fn = node.value.func.id
                 if fn == 'classdef':
                     self._classdef(node.value)
+                elif fn == 'namedtuple_types':
+                    call = node.value
+                    name = ast.literal_eval(call.args[0])
+                    names = [kw.arg for kw in call.keywords]
+                    pt = ptypes.PT('tuple', *[ptypes.parse_type(kw.value) for kw in call.keywords])
+                    ptypes.NAMED_TUPLE_TYPES[name] = (pt, names)
+                    from . import cexpr
+                    cexpr.NAMED_TUPLES[pt] = names
                 continue
             if isinstance(node, ast.FunctionDef):
                 decs = node.decorator_list
